@@ -59,6 +59,10 @@ def check(ctx):
                     seed = [rng.choice([0, 1, 255, rng.randrange(256)]) for _ in range(SEEDW[fn])]
                     cut = rng.choice([0, lead, lead + (n // 4) * 4, len(data), (len(data) // 4) * 4])
                     lines.append(line(fn, seed, data, rng.randrange(8), min(cut, len(data))))
+    # CRC-32 over messages beyond 2^16 words (judged by the byte-at-a-time form of the definition, Fast32)
+    for n in ([65536, 262143, 262144, 262145, 262151, 300000] if ctx.thorough else [262144, 262149]):
+        data = [rng.randrange(256) for _ in range(n)]
+        lines.append(line("crc32", [rng.randrange(256) for _ in range(4)], data, rng.randrange(8), rng.choice([0, 4, n // 2 // 4 * 4, n // 4 * 4])))
     if ctx.thorough:
         for fn in FNS:
             for off in range(8):
